@@ -67,7 +67,7 @@ FaultStep(e, pa) ==
   IN /\ c.st = "unwound"
      /\ t' = c.t /\ A' = E1
      /\ chk' = /\ KI2(E1) \subseteq KI2(A)
-               /\ c.dr = {x[2] : x \in gone} \ {0}
+               /\ c.dr \ {0} = {x[2] : x \in gone} \ {0}
                /\ c.t.mask = t.mask
                /\ Cardinality(E1) = c.t.items
      /\ UNCHANGED hp
